@@ -426,6 +426,7 @@ Definition ev_ok (c : cache) (e : cache_ev) : Prop :=
       t_id st = tid /\
       forall n, c_nodes c !! i = Some n -> exists cp, n_tasks n !! tid = Some cp /\ t_req cp = t_req st
   | EvRemoveNode _ => True
+  | EvUnbind _ _ => True
   end.
 
 Lemma bnode_placeholder i : bnode_ok (placeholder i).
@@ -487,7 +488,7 @@ Proof. intros Hl Ha. simpl. rewrite Hl, Ha. reflexivity. Qed.
 (* every cache event keeps the invariant *)
 Theorem cache_event_keeps c e : cinv c -> ev_ok c e -> cinv (cache_event eps c e).
 Proof.
-  intros [Hheap Hall] Hev. destruct e as [nid alloc|tid|tid|t|tid|tid|nid]; simpl.
+  intros [Hheap Hall] Hev. destruct e as [nid alloc|tid|tid|t|tid|tid|nid|tid nid]; simpl.
   - (* node add / update: the ledger is recomputed *)
     destruct Hev as [Hs Hsum]. split; [exact Hheap|]. simpl. unfold node_event. apply nodes_all_insert; [exact Hall|].
     destruct (c_nodes c !! nid) as [n|] eqn:E.
@@ -550,6 +551,9 @@ Proof.
     + apply nodes_all_insert; [exact Hall|]. destruct (Hall _ _ E) as (_ & Hc0 & _).
       split; [simpl; discriminate|]. split; [exact Hc0|]. split; [simpl; discriminate|]. split; [intros k cp Hl; apply (Hc0 _ _ Hl)|].
       intros Hc. simpl in Hc. discriminate.
+  - (* a failed bind execution takes the task off its node *)
+    destruct (c_nodes c !! nid) as [n|] eqn:E; [|split; assumption]. split; [exact Hheap|]. simpl.
+    apply nodes_all_insert; [exact Hall|]. apply bnode_remove. apply (Hall _ _ E).
 Qed.
 
 (* AddBindTask keeps it too *)
@@ -656,6 +660,7 @@ Definition agent_ev_ok (tasks : positive -> option task) (ns : gmap positive nod
     forall st i, tasks tid = Some st -> find_binding ns tid = Some i ->
       nonneg (t_req st) /\ forall n, ns !! i = Some n -> is_Some (n_tasks n !! t_id st)
   | EvRemoveNode _ => True
+  | EvUnbind _ _ => True
   end.
 
 Definition agent_op_ok (tasks : positive -> option task) (ns : gmap positive node) (o : agent_op) : Prop :=
@@ -670,7 +675,7 @@ Proof.
     destruct (node_add eps n (set_status t Binding)) as [[n' t']|er] eqn:Ea; [|exact Hall]. simpl.
     apply nodes_all_insert; [exact Hall|].
     apply (bnode_add n (set_status t Binding) n' t'); [apply (Hall _ _ E)|exact Hok|simpl; discriminate|left; reflexivity|exact Ea].
-  - destruct e as [nid alloc|tid|tid|t|tid|tid|nid]; simpl in *.
+  - destruct e as [nid alloc|tid|tid|t|tid|tid|nid|tid nid]; simpl in *.
     + assert (Hc : cinv (mkCache ∅ ∅ ns)) by (split; [intros i t Hl; simpl in Hl; rewrite lookup_empty in Hl; discriminate|exact Hall]).
       destruct (cache_event_keeps _ (EvNode nid alloc) Hc Hok) as [_ H]. exact H.
     + destruct (tasks tid) as [st|] eqn:Et; [|exact Hall].
@@ -691,6 +696,7 @@ Proof.
       * apply add_to_node_ok; [exact Hall|exact Hnn|simpl; discriminate|].
         intros k n Hk Hl. simpl in Hk. inversion Hk; subst k. rewrite E in Hl. discriminate.
     + intros i m Hl. apply lookup_delete_Some in Hl as [_ Hl]. apply (Hall _ _ Hl).
+    + destruct (ns !! nid) as [n|] eqn:E; [|exact Hall]. apply nodes_all_insert; [exact Hall|]. apply bnode_remove. apply (Hall _ _ E).
 Qed.
 
 Fixpoint agent_ops_ok (tasks : positive -> option task) (ns : gmap positive node) (l : list agent_op) : Prop :=
